@@ -112,7 +112,7 @@ func buildW(c wCase, r *rand.Rand) *astisub.Subtitles {
 		cd := time.Date(2019, 5, 6, 0, 0, 0, 0, time.UTC)
 		rd := time.Date(2019, 7, 8, 0, 0, 0, 0, time.UTC)
 		s.Metadata = &astisub.Metadata{Framerate: 25, STLDisplayStandardCode: "0", STLCreationDate: &cd, STLRevisionDate: &rd, Title: "T",
-			SSAScriptType: "v4.00+", Language: astisub.LanguageEnglish, STLCountryOfOrigin: "NOR",
+			SSAScriptType: []string{"v4.00+", "v4.00"}[c.Keys%2], Language: astisub.LanguageEnglish, STLCountryOfOrigin: "NOR",
 			// comments as a program may set them: one of them runs over two lines
 			Comments:           []string{"first comment", "second comment\ncontinued on another line", " padded "},
 			WebVTTTimestampMap: &astisub.WebVTTTimestampMap{Local: time.Second, MpegTS: 90000}}
